@@ -60,13 +60,14 @@ func exesStr(es []ExeSpec) string {
 var errCustomCause = errors.New("custom cancellation cause")
 
 type MultiOpts struct {
-	Quiet      bool // no event recording (race build: the harness must not share memory between threads)
-	TagContext bool // give every execution a context value identifying it, and register the executor listeners
-	Grace      time.Duration
-	Extra      []func(env *Env) // extra harness threads (standalone API callers)
-	Setup      func(env *Env)
-	Final      func(env *Env) string
-	Reduce     bool
+	Quiet          bool // no event recording (race build: the harness must not share memory between threads)
+	TagContext     bool // give every execution a context value identifying it, and register the executor listeners
+	Grace          time.Duration
+	Extra          []func(env *Env) // extra harness threads (standalone API callers)
+	Setup          func(env *Env)
+	Final          func(env *Env) string
+	Reduce         bool
+	SharedExecutor bool // every execution runs through one Executor value (WithContext copies of it) instead of one built per execution
 }
 
 func multiBody(stack []Spec, exes []ExeSpec, o MultiOpts) func() {
@@ -75,6 +76,10 @@ func multiBody(stack []Spec, exes []ExeSpec, o MultiOpts) func() {
 		env.Reduce = o.Reduce
 		if o.Setup != nil {
 			o.Setup(env)
+		}
+		var shared failsafe.Executor[int]
+		if o.SharedExecutor {
+			shared = failsafe.NewExecutor[int](env.Policies...)
 		}
 		var wg vsync.WaitGroup
 		for _, es := range exes {
@@ -94,6 +99,9 @@ func multiBody(stack []Spec, exes []ExeSpec, o MultiOpts) func() {
 					}
 				}
 				ex := failsafe.NewExecutor[int](pol...)
+				if shared != nil && es.Sub == nil {
+					ex = shared
+				}
 				if o.TagContext {
 					ex = ex.WithContext(context.WithValue(context.Background(), exeKeyT{}, x.ID))
 					ex = ex.OnDone(env.doneEv(-1, "done")).OnSuccess(env.doneEv(-1, "success")).OnFailure(env.doneEv(-1, "failure"))
